@@ -48,12 +48,13 @@ func init() {
 		{Pkg: sig, Func: "(*SignerInfo).AuthenticSigningTime", Oracle: true},
 		{Pkg: v, Func: "(*verifier).verifyRevocation"},
 		{Pkg: v, Func: "logVerificationResult", NonNil: true},
-		// Kept as documentation: REFUSED (the reason is printed on every run). processPluginResponse finds the
-		// authenticity result in outcome.VerificationResults and writes its Error through that pointer
-		// (verifier/verifier.go:680-687); processSignature sets authenticityResult.Error (:513) after the pointer was
-		// appended to outcome.VerificationResults (:501): aliasing, GoLite has no heap. The native validations above
-		// (verifyIntegrity .. verifyAuthenticTimestamp) are the oracles processSignature would have; C03 C04 C06 own them.
+		// processPluginResponse finds the authenticity result in outcome.VerificationResults and writes its Error through
+		// that pointer (verifier/verifier.go:680-687): refused as a real target ("write through a pointer that was not
+		// created in this function"), hence an oracle of processSignature that takes and returns the outcome.
 		{Pkg: v, Func: "processPluginResponse", Oracle: true, OutParams: []string{"outcome"}},
+		// THE function: every call that leaves it is one of the oracle rows above (verifyIntegrity ..
+		// verifyAuthenticTimestamp are owned by C03 C04 C06). authenticityResult.Error = err (:513) after the pointer was
+		// appended to outcome.VerificationResults (:501) is translated by the "element link" (list_set at the index of the append).
 		{Pkg: v, Func: "(*verifier).processSignature", NonNil: true},
 	})
 }
